@@ -2,7 +2,7 @@ PROP = dict(
         coq="Properties/C04.v",
         workloads=[
             dict(name="liquidity-custody", go_test="TestC04", runner="C04",
-                 env=dict(quick=dict(VERIF_CASES=30), thorough=dict(VERIF_CASES=800))),
+                 env=dict(quick=dict(VERIF_CASES=30), thorough=dict(VERIF_CASES=700))),
             dict(name="keeper-f1", go_test="TestC05KeeperHunt", runner="C04",
                  env=dict(quick=dict(VERIF_CASES=2), thorough=dict(VERIF_CASES=20))),
         ],
